@@ -392,7 +392,7 @@ func (x *Exec) invoke(fr *Frame, st *State, site ssa.Instruction, c *ssa.CallCom
 	}
 	itype := c.Value.Type()
 	mname := c.Method.Name()
-	ikey := "(" + typeKey(itype) + ")." + mname
+	ikey := x.eng.ifaceKey(itype, mname)
 	txt := x.srcText(fr.fn, pos, isCall)
 	x.oblige(fr, st, "nil", "iface:"+ikey, "method call on nil interface value: "+txt, pos, Neq(iv.Tag, IntLit(0)), nil)
 	full := append([]Value{iv}, args...)
@@ -411,6 +411,9 @@ func (x *Exec) invoke(fr *Frame, st *State, site ssa.Instruction, c *ssa.CallCom
 		return x.havocUnknown(fr, s2, c, full, rt, pos, "open-world interface call "+ikey)
 	}
 	impls := x.eng.implementers(itype, mname)
+	if ikey == "(error).Error" {
+		return external(st)
+	}
 	if !closed {
 		// keep only implementers that can matter: those whose method writes package state or has a contract
 		var keep []implementer
@@ -486,16 +489,13 @@ func (x *Exec) applyIfaceContract(fr *Frame, st *State, c *ssa.CallCommon, ct *C
 		}
 	}
 	old := st.clone()
-	for _, m := range ct.Modifies {
-		if m == "*" {
-			x.havocAll(st)
-		} else if strings.HasPrefix(m, "$") {
-			for k, s := range x.heapSorts {
-				if strings.HasPrefix(k, m[1:]) {
-					x.havocKey(st, k, s)
-				}
-			}
-		}
+	fs := frameSet{keys: map[string]Sort{}}
+	x.eng.rawModifies(ct, &fs)
+	if fs.all {
+		x.havocAll(st)
+	}
+	for _, k := range sortedKeys(fs.keys) {
+		x.havocKey(st, k, fs.keys[k])
 	}
 	x.havocArgCells(fr, st, full)
 	var res []Value
